@@ -463,6 +463,9 @@ def st_adapter_case(draw: st.DrawFn, tier: str) -> dict:
     case = draw(st_case(tier, asynchronous=True))
     case["api"] = draw(st.sampled_from(["endpoint", "client"]))
     case["close_kind"] = draw(st.sampled_from(["eof", "eof", "reset"]))
+    # polling calls (timeout 0) are part of the quantifier for the asynchronous side as well: what is already in the
+    # transport's user-space buffer must be returned, and end-of-stream reported, without waiting
+    case["calls"] = [(k, draw(st.sampled_from([T, T, 0]))) for k, T in case["calls"]]
     case["over"] = "asyncio-adapter"
     case["max_recv"] = draw(st.sampled_from([None, None, 1, 5]))
     # bursts larger than max_recv_size waiting in the protocol's buffer exercise the partial-read path of receive_data()
